@@ -17,6 +17,7 @@ import (
 	"math/rand"
 	"os"
 	"path/filepath"
+	"runtime"
 	"sort"
 	"strings"
 	"sync"
@@ -220,6 +221,8 @@ func (t *taskQueue) close() {
 // ---------------------------------------------------------------- events
 
 type event struct {
+	meta   *snapshotMeta
+	ids    []uint64
 	kind   string
 	nid    uint64
 	inc    int
@@ -291,6 +294,8 @@ type cluster struct {
 	mons    map[int]*streamMon
 	wireQ   []*wireMsg
 	timeoutNows []timeoutNowRec
+	probe       *pendingTask
+	strandedDeciding bool // C17 only: report the self-excluded-voter deadlock
 }
 
 type crashArm struct {
@@ -559,6 +564,7 @@ func (c *cluster) stop(id uint64) bool {
 	}
 	inc := c.incOf(n)
 	r := n.r
+	c.releaseHoldsOf(id) // a parked snapshot goroutine would keep Shutdown waiting: harness artefact
 	done := make(chan struct{})
 	go func() {
 		_ = r.Shutdown(context.Background())
@@ -568,6 +574,7 @@ func (c *cluster) stop(id uint64) bool {
 	case <-done:
 	case <-time.After(10 * time.Minute):
 		c.fail("shutdown", "shutdown-hang", "node %d: Shutdown did not return within 10 virtual minutes", id)
+		dumpStacks("shutdown-hang")
 		return true
 	}
 	c.reap(inc)
@@ -870,6 +877,9 @@ func (c *cluster) onHook(point, dir string) {
 	if (point == "term.persisted" || point == "vote.persisted") && !inc.dead.Load() {
 		c.led.notePersisted(inc.id, inc.dir)
 	}
+	if point == "snap.postmeta" && !inc.dead.Load() {
+		c.onSnapshotStored(inc)
+	}
 	if point == "commit.advance" && !inc.dead.Load() {
 		c.led.onCommitAdvance(inc)
 	}
@@ -902,6 +912,23 @@ func (c *cluster) releaseHold(id uint64, point string) {
 	if ch := c.holds[key]; ch != nil {
 		close(ch)
 		delete(c.holds, key)
+	}
+}
+
+func (c *cluster) releaseHoldsOf(id uint64) {
+	c.holdMu.Lock()
+	defer c.holdMu.Unlock()
+	prefix := fmt.Sprintf("%d/", id)
+	for k := range c.crashAt {
+		if strings.HasPrefix(k, prefix) {
+			delete(c.crashAt, k) // a crash armed earlier must not fire during a graceful stop
+		}
+	}
+	for k, ch := range c.holds {
+		if strings.HasPrefix(k, prefix) {
+			close(ch)
+			delete(c.holds, k)
+		}
 	}
 }
 
@@ -995,4 +1022,41 @@ func taskDone(t Task) bool {
 	default:
 		return false
 	}
+}
+
+// onSnapshotStored runs right after a snapshot's meta file was renamed into
+// place (taken locally or installed), on the goroutine that did it.
+func (c *cluster) onSnapshotStored(inc *incarnation) {
+	snapDir := filepath.Join(inc.dir, "snapshots")
+	idx := latestSnapOnDisk(inc.dir)
+	if idx == 0 {
+		return
+	}
+	meta, err := readMeta(snapDir, idx)
+	if err != nil {
+		c.fail("snapshot-label", "meta-unreadable", "node %d: snapshot meta %d unreadable right after it was published: %v", inc.id, idx, err)
+		return
+	}
+	var ids []uint64
+	if b, err := ioutil.ReadFile(filepath.Join(snapDir, fmt.Sprintf("%d.snap", idx))); err == nil {
+		ids = make([]uint64, len(b)/8)
+		for i := range ids {
+			ids[i] = binary.LittleEndian.Uint64(b[8*i:])
+		}
+		if int64(len(b)) != meta.size {
+			c.fail("snapshot-label", "snapshot-size", "node %d: snapshot %d has %d bytes, label says %d", inc.id, idx, len(b), meta.size)
+		}
+	}
+	c.pushEvent(event{kind: "snapshot", nid: inc.id, inc: inc.inc, meta: &meta, ids: ids})
+}
+
+func dumpStacks(tag string) {
+	dir := os.Getenv("VERIF_FAILDIR")
+	if dir == "" {
+		dir = os.TempDir()
+	}
+	buf := make([]byte, 4<<20)
+	buf = buf[:runtime.Stack(buf, true)]
+	_ = os.MkdirAll(dir, 0755)
+	_ = ioutil.WriteFile(filepath.Join(dir, fmt.Sprintf("stacks-%s-%d.txt", tag, os.Getpid())), buf, 0644)
 }
